@@ -132,7 +132,7 @@ def run(ck, a):
       def lossf(q, qd):
         st = mod.init(s0, q, qd)
         o = mod.step(s0, st, jp.zeros(0))
-        return jp.sum(o.x.pos[0] * jp.array([0.3, -0.7, 0.5])) + jp.sum(o.xd.vel[0]) + jp.sum(o.qd * 0.2) + jp.sum(o.q[:3] * 0.1)
+        return jp.sum(o.x.pos[0] * jp.array([0.3, -0.7, 0.5])) + jp.sum(o.xd.vel[0]) + jp.sum(o.qd * 0.2) + jp.sum(o.q[:3] * 0.1) + jp.sum(o.q[3:7] * jp.array([0.2, -0.4, 0.6, 0.3]))
       for di, dvec in enumerate(dirs):
         ctx = core.Ctx(fold=False, assume=ldom)
         q = core.obj_array(list(q0))
@@ -160,6 +160,13 @@ def run(ck, a):
           pass
         ck.extra['denominators_examined'] = ck.extra.get('denominators_examined', 0) + len(dens)
         if dens:
+          # the singular input itself (lam = 0: the very point the property names): every denominator must be non-zero THERE.  With lam pinned the
+          # query is ground up to the sqrt variables, so it is decided for all three pipelines (core), also where the whole-line obligation is not.
+          pin = [(lam, z3.RealVal(0))]
+          side0 = [z3.simplify(z3.substitute(s_, *pin)) for s_ in side]
+          g0 = z3.And([z3.simplify(z3.substitute(fr.formula(dt_ != 0), *pin)) for dt_ in dens.values()])
+          ck.add(Ob('finite-gradient/%s: all %d denominators non-zero AT the singular input' % (tag, len(dens)), side0, g0, timeout=120, core=(pname != 'generalized'),
+                    meta={'tag': tag, 'at_singular_point': True}))      # generalized: safe_norm's double-where leaves an UNSELECTED zero denominator; non-vanishing is sufficient, not necessary there (extended; a sat answer is replayed with the real jax.grad)
           for k_, dt_ in enumerate(dens.values()):
             ck.add(Ob('finite-gradient/%s: denominator %d of %d non-zero on the line' % (tag, k_, len(dens)), side, fr.formula(dt_ != 0), timeout=60,
                       core=(pname == 'spring'), meta={'tag': tag}))
@@ -200,7 +207,7 @@ def run(ck, a):
     def lossf(q, qd):
       st = mod.init(s0, q, qd)
       o = mod.step(s0, st, jp.zeros(0))
-      return jp.sum(o.x.pos[0] * jp.array([0.3, -0.7, 0.5])) + jp.sum(o.xd.vel[0]) + jp.sum(o.qd * 0.2) + jp.sum(o.q[:3] * 0.1)
+      return jp.sum(o.x.pos[0] * jp.array([0.3, -0.7, 0.5])) + jp.sum(o.xd.vel[0]) + jp.sum(o.qd * 0.2) + jp.sum(o.q[:3] * 0.1) + jp.sum(o.q[3:7] * jp.array([0.2, -0.4, 0.6, 0.3]))
     lamv = 0.0
     m = ob.model or {}
     if 'lam' in m:
